@@ -160,6 +160,11 @@ def step_definitions(plan):
                 if emit.get("log") is not None:
                     _logging.getLogger(emit.get("logger") or "vf").log(
                         int(emit.get("level") or _logging.WARNING), emit["log"].replace("{S}", sname))
+                    for i in range(int(emit.get("flood") or 0)):
+                        # many records in one scenario (more than a buffering handler's capacity)
+                        _logging.getLogger(emit.get("logger") or "vf").log(
+                            int(emit.get("level") or _logging.WARNING),
+                            emit["log"].replace("{S}", sname) + "#%d;" % i)
         for obs in plan.observers:
             obs("step", uid, context, info)
 
